@@ -172,7 +172,10 @@ class Cache:
         else:
             tmpl_kw = self.template.cache_args.copy()
             tmpl_kw.update(kw)
-            self._def_regions[defname] = tmpl_kw
+            if kw:
+                # remember the section's own arguments for invalidate_*();
+                # an invalidate_*() that comes first has none to give
+                self._def_regions[defname] = tmpl_kw
         if context and self.impl.pass_context:
             tmpl_kw = tmpl_kw.copy()
             tmpl_kw.setdefault("context", context)
